@@ -54,7 +54,13 @@ COLNAMES = COLNAMES + ["\u00e9", "e\u0301", "\uff41", "class", "1a", "_1", "Inde
 DESTS = [["all"], ["x", "y"], ["y", "x", "z"], ["all", "x"], []]
 # tz-aware instants: {"tsz": [wall-clock iso, zone]}; the first two are the same instant in different zones
 TSZ = [{"tsz": ["2020-01-01T12:00:00", "UTC"]}, {"tsz": ["2020-01-01T13:00:00", "Europe/Copenhagen"]},
-       {"tsz": ["2020-01-01T12:00:00", "Europe/Copenhagen"]}, {"tsz": ["2020-06-01T12:00:00", "UTC"]}]
+       {"tsz": ["2020-01-01T12:00:00", "Europe/Copenhagen"]}, {"tsz": ["2020-06-01T12:00:00", "UTC"]},
+       # the first instant again, at a non-whole-hour positive and a negative offset
+       {"tsz": ["2020-01-01T17:30:00", "Asia/Kolkata"]}, {"tsz": ["2020-01-01T08:30:00", "America/St_Johns"]}]
+# instants outside the datetime64[ns] range (pandas 3 keeps them in [s]/[ms]/[us] columns)
+FAR = [{"ts": "1500-03-01T00:00:00"}, {"ts": "3000-06-01T12:00:00"}, {"ts": "0001-01-01T00:00:00"},
+       {"ts": "9999-12-31T23:59:59"}]
+RES = {"dt_s": "s", "dt_ms": "ms", "datetime": "us", "dt_ns": "ns"}
 TS = ["2020-01-01T00:00:00", "2020-01-01T00:00:00.000001", "1999-12-31T23:59:59", "2021-06-01T12:00:00"]
 
 # spec values are JSON-native: int, float(finite), bool, str, None, {"v": "nan"|"inf"|"-inf"|"nat"|"na"}, {"ts": iso}
@@ -67,7 +73,12 @@ POOL = {
     "object": [1, 1.0, True, "x", "1", None, {"v": "nan"}, {"v": "nat"}, {"v": "na"}, 2.5, {"ts": TS[0]}, "y", 0, False,
                {"tsz": ["2020-01-01T12:00:00", "UTC"]}, {"tsz": ["2020-01-01T13:00:00", "Europe/Copenhagen"]},
                {"tsz": ["2020-01-01T12:00:00", "Europe/Copenhagen"]}, {"ts": "2020-01-01T12:00:00"}],
-    "datetime": [{"ts": t} for t in TS] + [{"v": "nat"}],
+    "datetime": [{"ts": t} for t in TS] + [{"v": "nat"}] + FAR,                     # datetime64[us]
+    "dt_s": [{"ts": "2020-01-01T00:00:00"}, {"ts": "1999-12-31T23:59:59"}, {"v": "nat"}] + FAR,
+    "dt_ms": [{"ts": "2020-01-01T00:00:00"}, {"ts": "2020-01-01T00:00:00.123"}, {"v": "nat"}] + FAR,
+    "dt_ns": [{"ts": "2020-01-01T00:00:00"}, {"ts": "2020-01-01T00:00:00.000000001"}, {"ts": "1999-12-31T23:59:59"},
+              {"ts": "1677-09-22T00:00:00"}, {"ts": "2262-04-11T00:00:00"}, {"ts": "2020-01-01T00:00:00.000001"},
+              {"v": "nat"}],
     "dt_utc": TSZ + [{"v": "nat"}],
     "dt_cph": TSZ + [{"v": "nat"}],
     "Int64": [0, 1, 2, 3, -1, {"v": "na"}, 7],
@@ -90,7 +101,7 @@ def dec(v):
     return v
 
 
-NUMERIC_KINDS = ("int", "float", "datetime", "dt_utc", "dt_cph", "Int64", "Float64")
+NUMERIC_KINDS = ("int", "float", "datetime", "dt_s", "dt_ms", "dt_ns", "dt_utc", "dt_cph", "Int64", "Float64")
 
 
 def unit_for(kind, rng):
@@ -98,15 +109,43 @@ def unit_for(kind, rng):
         return "onoff"
     if kind in ("text", "object", "string"):
         return "text"
-    if kind in ("datetime", "dt_utc", "dt_cph"):
+    if kind in ("datetime", "dt_utc", "dt_cph", "dt_s", "dt_ms", "dt_ns"):
         return "datetime"
     return rng.choice(NUM_UNITS)
+
+
+def expand_values(col):
+    """`{"seq": n, "at": {position: value}}`: n deterministic values with single cells replaced (long tables are
+    written down compactly in the case)"""
+    v = col["values"]
+    if not isinstance(v, dict) or "seq" not in v:
+        return v
+    n = v["seq"]
+    if col["kind"] == "int":
+        out = [(i * 37) % 1000 for i in range(n)]
+    elif col["kind"] == "float":
+        out = [((i * 53) % 4096) / 8.0 for i in range(n)]
+    else:
+        out = ["r%d" % (i % 7) for i in range(n)]
+    for pos, val in (v.get("at") or {}).items():
+        out[int(pos)] = val
+    return out
+
+
+def ts_key(x):
+    """exact calendar components of a timestamp (UTC for aware ones); no overflow for years 1 … 9999"""
+    import pandas as pd
+    ts = pd.Timestamp(x)
+    if ts.tzinfo is not None:
+        ts = ts.tz_convert("UTC")
+    return "%d-%d-%d-%d-%d-%d-%d-%d" % (ts.year, ts.month, ts.day, ts.hour, ts.minute, ts.second, ts.microsecond,
+                                       ts.nanosecond)
 
 
 def make_array(col):
     import numpy as np
     import pandas as pd
-    k, vals = col["kind"], [dec(v) for v in col["values"]]
+    k, vals = col["kind"], [dec(v) for v in expand_values(col)]
     if k == "int":
         return np.array(vals, dtype=np.int64)
     if k == "float":
@@ -120,8 +159,8 @@ def make_array(col):
         for i, v in enumerate(vals):
             a[i] = v
         return a
-    if k == "datetime":
-        return pd.array(vals, dtype="datetime64[us]")
+    if k in RES:
+        return pd.array(vals, dtype="datetime64[%s]" % RES[k])
     if k in ("dt_utc", "dt_cph"):
         # a tz-aware datetime column: every instant expressed in the column's own zone
         zone = "UTC" if k == "dt_utc" else "Europe/Copenhagen"
@@ -255,8 +294,8 @@ def sc(x):
         return {"s": x}
     if isinstance(x, (pd.Timestamp, datetime.datetime)):
         if x.tzinfo is not None:
-            return {"z": str(pd.Timestamp(x).as_unit("ns").value)}      # .value of an aware Timestamp: UTC instant
-        return {"t": str(pd.Timestamp(x).as_unit("ns").value)}
+            return {"z": ts_key(x)}      # the UTC instant
+        return {"t": ts_key(x)}
     raise InfraError(f"scalar outside the modelled kinds: {type(x).__name__}")
 
 
@@ -288,6 +327,8 @@ def ref_val_eq(x, y):
     import math
     import numpy as np
     import pandas as pd
+    if type(x) is type(y) and type(x) in (int, str, bool):
+        return x == y
     x = x.item() if isinstance(x, np.generic) else x
     y = y.item() if isinstance(y, np.generic) else y
     mx, my = ref_missing(x), ref_missing(y)
@@ -300,11 +341,13 @@ def ref_val_eq(x, y):
     if isinstance(x, str) and isinstance(y, str):
         return x == y
     if isinstance(x, (pd.Timestamp, datetime.datetime)) and isinstance(y, (pd.Timestamp, datetime.datetime)):
-        if (x.tzinfo is None) != (y.tzinfo is None):
-            return False                                  # a wall-clock time is not an instant
-        if x.tzinfo is not None:                          # same instant, whatever the zones
-            return x.astimezone(datetime.timezone.utc) == y.astimezone(datetime.timezone.utc)
-        return pd.Timestamp(x).as_unit("ns").value == pd.Timestamp(y).as_unit("ns").value
+        # "same cells" by ==: pandas' own scalar comparison (instants whatever the resolution or zone; a wall-clock
+        # time is never equal to an instant), cross-checked with the exact calendar components
+        r = bool(pd.Timestamp(x) == pd.Timestamp(y))
+        same_kind = (pd.Timestamp(x).tzinfo is None) == (pd.Timestamp(y).tzinfo is None)
+        if r != (same_kind and ts_key(x) == ts_key(y)):
+            raise InfraError(f"reference: pandas == and calendar components disagree on {x!r} vs {y!r}")
+        return r
     return False
 
 
@@ -370,7 +413,8 @@ BIG_EXACT = [[2 ** 53, 1, 0], [2 ** 62, 2 ** 62, 1], [2 ** 62, 2 ** 62, 2 ** 62,
 
 MUTATIONS = ["identical", "name", "dests", "dests_reorder", "unit", "colname", "colorder", "cell", "dtype",
              "add_row", "del_row", "add_col", "del_col", "missing_flavour", "missing_dtype", "transposed", "origin",
-             "rowswap", "number_type_cell", "subclass", "index", "non_table", "unit_swap"]
+             "rowswap", "number_type_cell", "subclass", "index", "non_table", "unit_swap", "resolution", "aware_vs_naive",
+             "dt_as_int"]
 
 
 def mutate(rng, spec, kind):
@@ -425,7 +469,8 @@ def mutate(rng, spec, kind):
     if not cols:
         return None, None
     want = {"dtype": ("int", "float", "Int64", "dt_utc", "dt_cph"), "missing_dtype": ("Int64", "string", "text"),
-            "missing_flavour": ("object",), "number_type_cell": ("object",)}.get(kind)
+            "missing_flavour": ("object",), "number_type_cell": ("object",), "resolution": tuple(RES),
+            "aware_vs_naive": ("dt_s", "dt_ms", "datetime"), "dt_as_int": ("dt_ns", "dt_s")}.get(kind)
     elig = [k for k in range(len(cols)) if want is None or cols[k]["kind"] in want]
     if not elig:
         return None, None
@@ -437,7 +482,7 @@ def mutate(rng, spec, kind):
     if kind == "unit":
         if c["kind"] in ("bool", "boolean", "text", "object", "string"):
             # special units are forced by the dtype; pick a numeric column instead if there is one
-            num = [x for x in cols if x["kind"] in ("int", "float", "datetime", "dt_utc", "dt_cph", "Int64", "Float64")]
+            num = [x for x in cols if x["kind"] in NUMERIC_KINDS]
             if not num:
                 return None, None
             c = rng.choice(num)
@@ -445,7 +490,7 @@ def mutate(rng, spec, kind):
         return s, False
     if kind == "unit_swap":
         # the same units on other columns: two numeric columns exchange their (different) units
-        num = [x for x in cols if x["kind"] in ("int", "float", "datetime", "dt_utc", "dt_cph", "Int64", "Float64")]
+        num = [x for x in cols if x["kind"] in NUMERIC_KINDS]
         pairs = [(x, y) for x in num for y in num if x is not y and x["unit"] != y["unit"]]
         if not pairs:
             return None, None
@@ -478,6 +523,34 @@ def mutate(rng, spec, kind):
             c["kind"] = "dt_cph" if c["kind"] == "dt_utc" else "dt_utc"      # the same instants in another time zone
             return s, True
         return None, None
+    if kind == "resolution":
+        # the same instants in a datetime column of another resolution ([s] / [ms] / [us] / [ns])
+        def fits(v, unit):
+            if isinstance(v, dict) and "v" in v:
+                return True
+            try:
+                dec(v).as_unit(unit, round_ok=False)
+                return True
+            except Exception:
+                return False
+        others = [k for k in RES if k != c["kind"] and all(fits(v, RES[k]) for v in c["values"])]
+        if not others:
+            return None, None
+        c["kind"] = rng.choice(others)
+        return s, True
+    if kind == "aware_vs_naive":
+        # the same wall-clock readings, once as instants (UTC), once without a zone: equal only where both are missing
+        c["kind"] = "dt_utc"
+        c["values"] = [v if "v" in v else {"tsz": [v["ts"], "UTC"]} for v in c["values"]]
+        return s, None
+    if kind == "dt_as_int":
+        # the column's instants as plain integers (epoch counts in the column's own resolution)
+        if any("v" in v for v in c["values"]):
+            return None, None
+        unit = RES[c["kind"]]
+        c["values"] = [int(dec(v).as_unit(unit)._value) for v in c["values"]]
+        c["kind"] = "int"
+        return s, None
     if kind == "missing_dtype":
         # the same values held in another missing-value representation: Int64 <NA> vs float NaN, string vs str
         if c["kind"] == "Int64":
@@ -542,7 +615,12 @@ def scalar_pool():
             pd.Timestamp("2020-01-01T12:00:00", tz="UTC"), pd.Timestamp("2020-01-01T13:00:00", tz="Europe/Copenhagen"),
             pd.Timestamp("2020-01-01T13:00:00+01:00"), datetime.datetime(2020, 1, 1, 12, tzinfo=datetime.timezone.utc),
             pd.Timestamp("2020-01-01T12:00:00", tz="Europe/Copenhagen"), pd.Timestamp("2020-01-01T12:00:00"),
-            datetime.datetime(2020, 1, 1, 12)]
+            datetime.datetime(2020, 1, 1, 12),
+            # other resolutions, far years, sub-second parts, odd offsets, epoch integers
+            pd.Timestamp("2020-01-01T12:00:00").as_unit("s"), pd.Timestamp("2020-01-01T12:00:00").as_unit("ns"),
+            pd.Timestamp("3000-06-01T12:00:00"), pd.Timestamp("0001-01-01T00:00:00"), datetime.datetime(3000, 6, 1, 12),
+            pd.Timestamp("2020-01-01T12:00:00.000000001"), pd.Timestamp("2020-01-01T17:30:00+05:30"),
+            pd.Timestamp("2020-01-01T08:30:00-03:30"), 1577880000, 1577880000000000000]
 
 
 # ---------------------------------------------------------------- run
@@ -607,7 +685,7 @@ def judge(a, b, case, step, expected, out, ops, pend, model_ok):
                          key="mutation:" + mut)
             if expected is not None and exp != expected:
                 out.notes.append(f"harness: reference and construction disagree on {mut} index {case.get('index')}")
-    if model_ok:
+    if model_ok and not case.get("nomodel"):
         oa, ob = observe(a), observe(b)
         ops.append({"op": "equals", "self": oa, "other": ob})
         pend.append(("equals(a,b)" + where, fcase, ab))
@@ -647,7 +725,7 @@ def eval_pair(case, out, ops, pend, model_ok, record=True):
 def gen_history(rng, base):
     """(a, b, expected at step 0, edits): a pair that is compared, then one header aspect of one of the two
     objects is changed in place (making them differ / agree), compared, changed back, compared"""
-    num = [c for c in base["cols"] if c["kind"] in ("int", "float", "datetime", "dt_utc", "dt_cph", "Int64", "Float64")]
+    num = [c for c in base["cols"] if c["kind"] in NUMERIC_KINDS]
     op = rng.choice(["name", "dests"] + (["unit_proxy", "units_setter", "unit_proxy", "units_setter"] if num else []))
     on = rng.choice(["a", "b"])
     a, b = copy.deepcopy(base), copy.deepcopy(base)
@@ -673,6 +751,38 @@ def gen_history(rng, base):
         else:
             [x for x in side["cols"] if x["name"] == edit["col"]][0]["unit"] = new
     return a, b, first, [dict(edit, value=v, expected=e) for v, e in seq]
+
+
+LADDER = [60, 63, 64, 65, 127, 128, 129, 255, 256, 257, 1000, 1023, 1024, 1025, 2047, 2048, 2049, 4095, 4096, 4097,
+          8191, 8192, 8193, 20001]
+LADDER_QUICK = [1025, 4097, 8193]        # always: a table above 1024, above 4096 and above 8192 rows
+
+
+def ladder_cases(rng, tier, seed):
+    """long tables (written down compactly) that differ from their twin in ONE cell, placed at every ladder
+    position -1 / 0 / +1 and in the last row; and the identical twin"""
+    idx = -1000
+    sizes = LADDER if tier == "thorough" else LADDER_QUICK + rng.sample([x for x in LADDER if x < 1025], 2)
+    for n in sizes:
+        def table(at=None, col=0):
+            cols = [{"name": "a", "unit": "m", "kind": "int", "values": {"seq": n}},
+                    {"name": "b", "unit": "mm", "kind": "float", "values": {"seq": n}},
+                    {"name": "c", "unit": "text", "kind": "text", "values": {"seq": n}}]
+            if at is not None:
+                cols[col]["values"]["at"] = {str(at): [-7, -7.5, "other"][col]}
+            return {"cls": "Table", "name": "long", "dests": ["all"], "cols": cols, "nrows": n, "index": None,
+                    "transposed": False, "origin": ""}
+        positions = sorted({p for L in LADDER if L <= n + 1 for p in (L - 2, L - 1, L) if 0 <= p < n} | {0, n - 1})
+        if tier != "thorough" and n < 8193:
+            positions = [p for p in positions if p >= n - 1100]      # the fine sweep is done on the largest table
+        small = n <= 1100
+        yield {"seed": seed, "index": idx, "mutation": "ladder:identical", "expected": True, "rows": n,
+               "a": table(), "b": table(), "nomodel": not small}
+        idx -= 1
+        for k, pos in enumerate(positions):
+            yield {"seed": seed, "index": idx, "mutation": "ladder:cell", "expected": False, "rows": n, "cell_row": pos,
+                   "a": table(), "b": table(pos, k % 3), "nomodel": not (small or pos == n - 1)}
+            idx -= 1
 
 
 def cases(rng, tier, seed):
@@ -799,7 +909,11 @@ def run(tier, seed, model_ok, translator, search=False):
                 "destinations / one unit in place through metadata, Column.unit and Table.units, compare the same "
                 "objects again, edit back, compare), tables reached by re-ordering the columns of an existing "
                 "table's frame (column selection + re-wrap, in-place moves after a consultation) against directly "
-                "written tables with the right and with the stale positional units, subclass instances and "
+                "written tables with the right and with the stale positional units, datetime columns of every "
+                "resolution ([s]/[ms]/[us]/[ns], years 1-9999, NaT) against the same instants in another resolution, as "
+                "tz-aware instants and as integer epoch counts, long tables on a size ladder (rows around 64 … 1024, "
+                "4096, 8192, 20001) differing in one cell at every ladder position -1/0/+1 and in the last row, "
+                "subclass instances and "
                 "non-Table arguments (None, scalars, containers, plain DataFrame, and objects carrying the table's own "
                 "content: its backing TableDataFrame, a twin's, copies, Series, (name, df) tuples/lists, duck-typed "
                 "objects, repr, column proxies); equals evaluated in both orders and on (a, a). Non-trivial: other is a Table "
@@ -828,8 +942,11 @@ def run(tier, seed, model_ok, translator, search=False):
                     pend.append(("_equal_or_same", case, r))
     out.count("scalar_pairs", len(pool) ** 2)
 
-    for case in cases(rng, tier, seed):
+    import itertools
+    for case in itertools.chain(ladder_cases(make_rng(seed, "C14-ladder"), tier, seed), cases(rng, tier, seed)):
         eval_pair(case, out, ops, pend, model_ok, record=True)
+        if case.get("rows"):
+            out.count("ladder_rows:%d" % case["rows"])
         if len(out.failures) >= 50:
             break
 
